@@ -1,8 +1,9 @@
 """C13 — maximising f behaves exactly like minimising -f.
 
 Specs: specs/Mirror.tla + MirrorMC (exact integer decision models of every direction-dependent decision - percentile/
-median, threshold, patient, successive-halving rung, TPE split, best trial, Pareto set / rank with any subset of
-objectives flipped - and the mirror theorem, exhaustively), specs/Functional.tla + FunctionalTrace with the
+median, threshold, patient, successive-halving rung, Wilcoxon signed-rank decision incl. its "average is best" safety
+check, TPE split, best trial, Pareto set / rank with any subset of objectives flipped - and the mirror theorem,
+exhaustively), specs/Functional.tla + FunctionalTrace with the
 SIGN-NORMALISED key (conformance).  As for C09 the sampler mathematics is not modelled (thin): the real code is compared
 with itself.  A scenario (program with exactly representable, pairwise-distinct values x seeded sampler x pruner) is run
 once per subset F of objectives: directions flipped on F, objective (and reported values) negated on F, value
@@ -55,9 +56,11 @@ def run(ctx):
     for cfg in (["MirrorMC_q1", "MirrorMC_q2"] if ctx.quick else ["MirrorMC_t1", "MirrorMC_t2"]):
         r = tlc.require_model("MirrorMC", cfg, must_cover=["AddTrial"], timeout=1800)
         ctx.model(r, cfg)
-    for cfg, inv in (("MirrorMC_neg1", "SomePrunes"), ("MirrorMC_neg2", "SomeKeeps"), ("MirrorMC_bad", "MirrorBadPercentile")):
+    negs = (("MirrorMC_neg1", "SomePrunes"), ("MirrorMC_neg2", "SomeKeeps"), ("MirrorMC_bad", "MirrorBadPercentile"),
+            ("MirrorMC_wneg1", "WilcoxonNeverPrunes"), ("MirrorMC_wneg2", "WilcoxonSafetyNeverDecides"))
+    for cfg, inv in negs:
         tlc.expect_violation("MirrorMC", cfg, inv)
-    ctx.notes["mirror_negative_instances_violated_as_expected"] = ["SomePrunes", "SomeKeeps", "MirrorBadPercentile"]
+    ctx.notes["mirror_negative_instances_violated_as_expected"] = [inv for _, inv in negs]
     r = tlc.require_model("FunctionalMC", "FunctionalMC_q" if ctx.quick else "FunctionalMC_t", must_cover=c09.MC_ACTIONS)
     ctx.model(r, "FunctionalMC (direction signs included)")
     common.use_repo()
@@ -80,6 +83,10 @@ def run(ctx):
         "objective and reported values are multiples of 1/4096 of magnitude < 64 and pairwise distinct (a term in the "
         "trial number), so negation, quartile interpolation and short sums are exact; thresholds are mirrored exactly",
         "percentile pruners at 25/50/75 only (other percentiles make numpy's interpolation weights inexact)",
+        "WilcoxonPruner: instance-style programs (6-10 steps with the same ids in every trial, scores multiples of 1/65536, "
+        "objective = median/max/min/last/mean of the reports), p_threshold in {0.1, 0.2, 0.3} (never equal to an exact "
+        "p-value k/2^n); the p-value computation itself (scipy) is covered by functional agreement only - Mirror.tla "
+        "abstracts it to a monotone function of the integer signed-rank statistic",
         "in-memory storage only (storage independence is C09)",
         "TLA+ part is thin for samplers: no TPE/GP/NSGA mathematics, only functional dependence on the normalised history",
     ]
